@@ -163,9 +163,16 @@ def d3_sentinel(ctx, m):
                                  '(%s): a sample that is exactly zero in the file is dropped on import' % unparse(t), m.loc(s))
         if isinstance(s, ast.Continue):
             g = guards_of(m, s, stop=rd)
-            if g and 'np.unique' in unparse(find_def(rd, 'h')[0].value if find_def(rd, 'h') else ast.Constant(value=0)) and 'h ==' in unparse(g[-1][0]):
+            uniq = g and 'np.unique' in unparse(find_def(rd, 'h')[0].value if find_def(rd, 'h') else ast.Constant(value=0)) and any(isinstance(x, ast.Name) and x.id == 'h' for x in ast.walk(g[-1][0]))
+            if uniq and 'h ==' in unparse(g[-1][0]):
                 n += 1
                 ctx.violated(rule, 'input/dobs.py:import_dobs_string#replica-skipped-by-value', 'a replica is skipped when all its stored samples coincide with the mean value (%s)' % unparse(g[-1][0]), m.loc(s))
+            elif uniq:
+                # the writer marks 'observable not measured on this replica' by a row of the marker value; skipping on anything weaker
+                # than 'all samples equal the marker' drops measured replicas
+                n += 1
+                ctx.violated(rule, 'input/dobs.py:import_dobs_string#replica-skipped-when-constant[%s]' % unparse(g[-1][0]), 'a replica is skipped whenever its stored samples are all equal (%s), '
+                             'whatever their value: a measured replica on which the observable is constant disappears on import' % unparse(g[-1][0]), m.loc(s))
     if n == 0:
         ctx.holds(rule, 'input/dobs.py:import_dobs_string#membership', 'membership of configurations does not depend on sample values')
     # the zero fill of the writer (for configurations an observable lacks) is what the sentinel encodes
@@ -354,6 +361,7 @@ def run(ctx):
 
 
 SELFTEST = [
+    ('replica-skipped-when-constant', 'pyerrors/input/dobs.py', "            if len(h) == 1 and np.all(h == mean[i]):", "            if len(h) == 1:", 'C12-D3'),
     ('benign-rename-cdata-locals', 'pyerrors/input/dobs.py', "    cov = _import_array(cd[1])\n    grad = _import_array(cd[2])\n    return cd[0].text.strip(), cov, grad", "    cmat = _import_array(cd[1])\n    jac = _import_array(cd[2])\n    return cd[0].text.strip(), cmat, jac", 'BENIGN'),
     ('cdata-cov-grad-swapped', 'pyerrors/input/dobs.py', "    cov = _import_array(cd[1])\n    grad = _import_array(cd[2])", "    cov = _import_array(cd[2])\n    grad = _import_array(cd[1])", 'C12-D2'),
     ('fix-reverted-separator', 'pyerrors/input/dobs.py', "if separator_insertion is None or separator_insertion is False:", "if separator_insertion is None or False:", 'C12-D4'),
